@@ -159,8 +159,12 @@ func genTxn(r *rand.Rand, id int, clients int, o genOpts, keys []string) TxnProg
 	p := TxnProg{ID: id, Client: r.Intn(clients), DelayMs: r.Intn(30)}
 	p.Pessimistic = r.Float64() < o.pessRate
 	if o.backend == "R" {
-		p.Async = r.Float64() < o.asyncRate
-		p.OnePC = r.Float64() < o.onePCRate
+		ar, or := o.asyncRate, o.onePCRate
+		if ar == 0 && or == 0 {
+			ar, or = 0.4, 0.3
+		}
+		p.Async = r.Float64() < ar
+		p.OnePC = r.Float64() < or
 	}
 	nops := 1 + r.Intn(7)
 	if o.maxOps > 0 {
